@@ -3,8 +3,16 @@
 EXTENDS Gate, TLC, Json, IOUtils
 TraceLog == ndJsonDeserialize(IOEnv.TRACE)
 OutFile  == IOEnv.OUT
-VARIABLES l, rej, cur, skip, cfg, sub, srv, resp, nack, nexec, nmatch, nmis
-vars == <<l, rej, cur, skip, cfg, sub, srv, resp, nack, nexec, nmatch, nmis>>
+KF(id)   == id \in DOMAIN IOEnv     \* a known finding is enabled by an environment variable
+VARIABLES l, rej, cur, skip, cfg, sub, srv, resp, nack, nexec, nmatch, nmis, known
+vars == <<l, rej, cur, skip, cfg, sub, srv, resp, nack, nexec, nmatch, nmis, known>>
+\* KF_C19_APP_TOKEN_EQUALS_STATE_TOKEN: the library numbers the per-request state it keeps (Observe, block-wise) 1, 2, ... per session and
+\* recognises "its own" tokens by that number alone; an application token that, read as an integer, equals the number of ANOTHER request's
+\* state is taken for it.  Here: one-byte application tokens 1..nq, the obs-th request (obs > 1) is the first with state (number 1): the
+\* request with token 1 is reported under, and answered to, the token of request obs.
+Collides == cfg.obs \notin {0, 1, 9} /\ cfg.tk2 = 0 /\ cfg.nq >= cfg.obs
+CollisionWhys == {"C19:request-reported-by-more-than-one-nack", "C19:response-delivered-twice",
+                  "C19:queued-request-not-reported-by-exactly-one-nack", "C19:queued-request-not-delivered-exactly-once-after-the-handshake"}
 \* sub: tokens submitted; srv / resp / nack: sequences of tokens seen by the server handler / response handler / NACK handler
 Count(q, x) == Cardinality({i \in 1..Len(q) : q[i] = x})
 Undisturbed == cfg.ndrops = 0 /\ cfg.rel = 0
@@ -41,18 +49,21 @@ Why(e) ==
     [] e.e = "Hang" -> "C19:endpoints-never-became-quiet"
     [] e.e = "Crash" -> "C19:run-aborted-or-sanitizer-report"
     [] OTHER -> ""
-Init == /\ l = 1 /\ rej = << >> /\ cur = -1 /\ skip = TRUE /\ cfg = [nq |-> 0] /\ sub = {} /\ srv = << >> /\ resp = << >> /\ nack = << >>
-        /\ nexec = 0 /\ nmatch = 0 /\ nmis = 0
+Init == /\ l = 1 /\ rej = << >> /\ cur = -1 /\ skip = TRUE /\ cfg = [nq |-> 0, obs |-> 0, tk2 |-> 0] /\ sub = {} /\ srv = << >> /\ resp = << >> /\ nack = << >>
+        /\ nexec = 0 /\ nmatch = 0 /\ nmis = 0 /\ known = {}
 Consume ==
   /\ l <= Len(TraceLog)
   /\ LET e == TraceLog[l] IN
      IF e.e = "Reset"
      THEN /\ cur' = e.id /\ skip' = FALSE /\ cfg' = e /\ sub' = {} /\ srv' = << >> /\ resp' = << >> /\ nack' = << >> /\ nexec' = nexec + 1
-          /\ nmatch' = nmatch + (IF Match(e) THEN 1 ELSE 0) /\ nmis' = nmis + (IF Match(e) THEN 0 ELSE 1) /\ UNCHANGED rej
-     ELSE IF skip /\ e.e # "Crash" THEN UNCHANGED <<rej, cur, skip, cfg, sub, srv, resp, nack, nexec, nmatch, nmis>>
-     ELSE LET why == Why(e) IN
+          /\ nmatch' = nmatch + (IF Match(e) THEN 1 ELSE 0) /\ nmis' = nmis + (IF Match(e) THEN 0 ELSE 1) /\ UNCHANGED <<rej, known>>
+     ELSE IF skip /\ e.e # "Crash" THEN UNCHANGED <<rej, cur, skip, cfg, sub, srv, resp, nack, nexec, nmatch, nmis, known>>
+     ELSE LET why0 == Why(e)
+              kf == why0 \in CollisionWhys /\ Collides /\ KF("KF_C19_APP_TOKEN_EQUALS_STATE_TOKEN")
+              why == IF kf THEN "" ELSE why0 IN
           /\ rej' = IF why = "" THEN rej ELSE Append(rej, [id |-> cur, line |-> l, why |-> why])
-          /\ skip' = (why # "")
+          /\ skip' = (why0 # "")
+          /\ known' = IF kf THEN known \cup {"KF_C19_APP_TOKEN_EQUALS_STATE_TOKEN"} ELSE known
           /\ sub' = IF e.e = "Submit" /\ e.ok = 1 THEN sub \cup {e.tok[1]} ELSE sub
           /\ srv' = IF e.e = "SrvReq" THEN Append(srv, e.tok[1]) ELSE srv
           /\ resp' = IF e.e = "Resp" THEN Append(resp, e.tok[1]) ELSE resp
@@ -60,8 +71,8 @@ Consume ==
           /\ UNCHANGED <<cur, cfg, nexec, nmatch, nmis>>
   /\ l' = l + 1
 Finish == /\ l = Len(TraceLog) + 1
-          /\ JsonSerialize(OutFile, [rejected |-> rej, executions |-> nexec, discarded |-> 0, known |-> {}, lines |-> Len(TraceLog), matching |-> nmatch, mismatching |-> nmis])
-          /\ l' = l + 1 /\ UNCHANGED <<rej, cur, skip, cfg, sub, srv, resp, nack, nexec, nmatch, nmis>>
+          /\ JsonSerialize(OutFile, [rejected |-> rej, executions |-> nexec, discarded |-> 0, known |-> known, lines |-> Len(TraceLog), matching |-> nmatch, mismatching |-> nmis])
+          /\ l' = l + 1 /\ UNCHANGED <<rej, cur, skip, cfg, sub, srv, resp, nack, nexec, nmatch, nmis, known>>
 Next == Consume \/ Finish
 Spec == Init /\ [][Next]_vars
 =============================================================================
